@@ -101,7 +101,8 @@ class time_limit:
     def __enter__(self):
         if self.seconds:
             self.old = signal.signal(signal.SIGALRM, self._fire)
-            signal.setitimer(signal.ITIMER_REAL, self.seconds)
+            # (repeats: an alarm that lands inside a destructor is swallowed by the interpreter)
+            signal.setitimer(signal.ITIMER_REAL, self.seconds, 0.5)
 
     def __exit__(self, *a):
         if self.seconds:
